@@ -1,7 +1,7 @@
 (* Dispatch of case lines to the per-property drivers. *)
 From Coq Require Import List ZArith String Ascii Bool Arith.
 From SMD Require Import Base.Sexp Model.Value Model.Schema Model.Codec
-  Driver.Common Driver.Algebra Driver.Typed Driver.Hist Driver.Serial.
+  Driver.Common Driver.Algebra Driver.Typed Driver.Hist Driver.Serial Driver.Effects.
 Import ListNotations.
 Open Scope string_scope.
 
@@ -47,6 +47,23 @@ Definition run_case (st : dstate) (x : sexp) : dstate * outcome :=
       | None => (st, out_bad "unknown schema")
       end
   | SList [SAtom "c20.diverged"; SAtom why] => (st, mkOut ["prop C20 " ++ why] 1 1 [])
+  | SList [SAtom "c08.call"; SAtom cid; a; b; c; d; e; f] =>
+      match with_conf st cid with
+      | Some hc => (st, run_c08_call (ds_schemas st) hc a b c d e f)
+      | None => (st, out_bad "unknown conf")
+      end
+  | SList [SAtom "c08.fault"; SAtom cid; a; b; c; d; e; f] =>
+      match with_conf st cid with
+      | Some hc => (st, run_c08_fault (ds_schemas st) hc a b c d e f)
+      | None => (st, out_bad "unknown conf")
+      end
+  | SList [SAtom "c08.typed"; a; b] => (st, run_c08_typed a b)
+  | SList [SAtom "c09.repeat"; SAtom cid; a; b; c; d; e; f; g] =>
+      match with_conf st cid with
+      | Some hc => (st, run_c09_repeat (ds_schemas st) hc a b c d e f g)
+      | None => (st, out_bad "unknown conf")
+      end
+  | SList [SAtom "c09.allocators"; a; b] => (st, run_c09_allocators a b)
   | SList [SAtom "c16.roundtrip"; a; b; c; d; e] => (st, run_c16_roundtrip a b c d e)
   | SList (SAtom "c16.perm" :: a :: b :: res) => (st, run_c16_perm a b res)
   | SList (SAtom "c16.parse" :: a :: res) => (st, run_c16_parse a res)
